@@ -472,8 +472,9 @@ def read_associate_def(line: str):
         match_char = find_paren_match(trailing_line)
         if match_char < 0:
             return "assoc", []
+        # An association list starting with a comma yields None
         var_words = separate_def_list(trailing_line[:match_char].strip())
-        return "assoc", var_words
+        return "assoc", var_words or []
 
 
 def read_select_def(line: str):
